@@ -63,6 +63,13 @@ TABLE = {
  "C18": [("Proofs/StructBound", n) for n in ["pop_bound_sound", "pop_bound_bounded", "core_bounded_crun", "view_bounded_state_after", "sma_pop", "cyber_pop"]] +
         [("Proofs/StructSched", n) for n in ["sched_pop_bound", "sched_pop_bounded"]],
 }
+EXTRA4 = {
+ "C16": [("Proofs/Flt2P", n) for n in ["ema_wfl_err", "ema_drift", "wr_mean_drift", "wr_mean_drift_sharp", "wr_mean_linear_growth"]] +
+        [("Proofs/Flt2B64", n) for n in ["ema_drift_b64", "wr_mean_drift_b64", "ema_drift_b64_1e6", "wr_mean_drift_b64_1e6"]],
+ "C13": [("Proofs/Flt2B64", n) for n in ["wr_mean_drift_b64", "wr_mean_drift_b64_1e6"]],
+ "C07": [("Proofs/Flt2P", n) for n in ["min_fl_exact", "max_fl_exact", "gte_fl_exact", "lte_fl_exact"]] +
+        [("Proofs/Flt2Prim", n) for n in ["min_prim_exact", "max_prim_exact", "gte_prim_exact", "lte_prim_exact"]],
+}
 EXTRA3 = {
  "C01": [("Proofs/ChainSpec", n) for n in ["chain_closed_form", "standalone_closed_form", "chain2_closed_form"]],
  "C02": [("Proofs/ChainInst", n) for n in ["sma_in_any_chain", "cs_sma", "cs_cumulative", "cs_min", "cs_max", "cs_roc", "cs_welford", "cs_vst", "cs_vsct", "cs_hln", "cs_entropy"]],
@@ -132,7 +139,7 @@ def header_of(path, name):
     return " ".join(m.group(1).split())
 
 def _merge_extra():
-    for ex in (EXTRA2, EXTRA3):
+    for ex in (EXTRA2, EXTRA3, EXTRA4):
         for k, v in ex.items():
             EXTRA[k] = EXTRA.get(k, []) + v
 
